@@ -20,6 +20,7 @@ Open Scope Z_scope.
 Section BytesModel.
 Variable wcw : Z -> Z.            (* wcwidth.wcwidth(chr(c)) *)
 Variable m : tmode.               (* the process-global byte encoding: MUtf8 | MWide | MNarrow *)
+Variable kenc : list Z -> list Z. (* key.encode(get_encoding(), "replace") of a key string (code points -> bytes) *)
 
 (* str_util.calc_width(text, a, b) on bytes, utf8 *)
 Definition bwidth (t : list Z) (a b : Z) : result Z := Width.calc_width wcw m t a b.
@@ -271,11 +272,8 @@ Definition bkeypress (s : st) (k : key) (w : Z) (lay : layout) : outcome :=
       match bvalid_char cs with
       | Err e => (s, [], Err e)
       | Ok true =>
-          (* key = key.encode("utf-8") *)
-          match utf8_encode_str cs with
-          | Err e => (s, [], Err e)
-          | Ok bs => let '(s1, sg) := insert_text s bs in (s1, sg, Ok RHandled)
-          end
+          (* key = key.encode(get_encoding(), "replace"): never raises *)
+          let '(s1, sg) := insert_text s (kenc cs) in (s1, sg, Ok RHandled)
       | Ok false => other
       end
   | _ => other
@@ -336,8 +334,17 @@ Fixpoint brun (s : st) (es : list event) : st * list (st * list sig * result ret
 
 End BytesModel.
 
+(* str.encode("utf-8", "replace") of a string: a lone surrogate becomes "?" *)
+Definition utf8_encode_replace (cs : list Z) : list Z :=
+  flat_map (fun c => if scalar c then utf8_encode c else [63]) cs.
+
+(* the encoder of a double-byte / single-byte codec as a table key string -> bytes (sent by the harness) *)
+Fixpoint lookup_kenc (t : list (list Z * list Z)) (cs : list Z) : list Z :=
+  match t with [] => cs | (k, v) :: r => if list_eqb k cs then v else lookup_kenc r cs end.
+
 (* ---------- wire format ----------
-   100 (utf8) | 101 (wide) | 102 (narrow)  caption(bytes list) text(bytes list) pos(oz) multiline allow_tab nwidths (cp wcwidth)* event*
+   100 (utf8) | 101 (wide) | 102 (narrow)  caption(bytes list) text(bytes list) pos(oz) multiline allow_tab
+   nwidths (cp wcwidth)*  nkeys (key(list) bytes(list))*  event*      (the key table is ignored in utf8 mode)
    (events and replies as in Model/Edit.v); anything else is a str-mode case of Model/Edit.v *)
 Fixpoint lookup_wcw (t : list (Z * Z)) (c : Z) : Z :=
   match t with [] => 1 | (k, w) :: r => if k =? c then w else lookup_wcw r c end.
@@ -350,11 +357,16 @@ Definition run_case_bytes (m : tmode) (l : list Z) : list Z :=
       match dec_oz r2 with
       | Some (p, ml :: tab :: nw :: r4) =>
         match dec_assoc_w (Z.to_nat nw) r4 with
-        | Some (wt, r5) =>
-            let es := dec_events (length r5) r5 in
-            let '(_, outs) := brun (lookup_wcw wt) m (init cap txt p (bz ml) (bz tab) None VEdit) es in
+        | Some (wt, nk :: r5) =>
+          match dec_assoc_l (Z.to_nat nk) r5 with
+          | Some (kt, r6) =>
+            let kenc := match m with MUtf8 => utf8_encode_replace | _ => lookup_kenc kt end in
+            let es := dec_events (length r6) r6 in
+            let '(_, outs) := brun (lookup_wcw wt) m kenc (init cap txt p (bz ml) (bz tab) None VEdit) es in
             zlen es :: flat_map enc_out outs
-        | None => [-16]
+          | None => [-17]
+          end
+        | _ => [-16]
         end
       | _ => [-14]
       end
